@@ -320,16 +320,18 @@ static void ep_mul_reg_glv(ep_t r, const ep_t p, const bn_t k) {
 #if defined(EP_PLAIN) || defined(EP_SUPER)
 
 static void ep_mul_reg_imp(ep_t r, const ep_t p, const bn_t k) {
-	bn_t m;
-	int i, j, n;
+	bn_t m, _k;
+	int i, j, n, even;
 	int8_t s, reg[1 + RLC_CEIL(RLC_FP_BITS + 1, RLC_WIDTH - 1)];
 	ep_t t[1 << (RLC_WIDTH - 2)], u, v;
 	size_t l;
 
 	bn_null(m);
+	bn_null(_k);
 
 	RLC_TRY {
 		bn_new(m);
+		bn_new(_k);
 		ep_new(u);
 		ep_new(v);
 		/* Prepare the precomputation table. */
@@ -343,8 +345,11 @@ static void ep_mul_reg_imp(ep_t r, const ep_t p, const bn_t k) {
 		ep_curve_get_ord(m);
 		n = bn_bits(m);
 
-		/* Make a copy of the scalar for processing. */
-		bn_abs(m, k);
+		/* Make a reduced copy of the scalar for processing. */
+		bn_abs(_k, k);
+		bn_mod(_k, _k, m);
+		even = bn_is_even(_k);
+		bn_copy(m, _k);
 		m->dp[0] |= 1;
 
 		/* Compute the regular w-NAF representation of k. */
@@ -380,9 +385,9 @@ static void ep_mul_reg_imp(ep_t r, const ep_t p, const bn_t k) {
 		}
 		/* t[0] has an unmodified copy of p. */
 		ep_sub(u, r, t[0]);
-		fp_copy_sec(r->x, u->x, bn_is_even(k));
-		fp_copy_sec(r->y, u->y, bn_is_even(k));
-		fp_copy_sec(r->z, u->z, bn_is_even(k));
+		fp_copy_sec(r->x, u->x, even);
+		fp_copy_sec(r->y, u->y, even);
+		fp_copy_sec(r->z, u->z, even);
 		/* Convert r to affine coordinates. */
 		ep_norm(r, r);
 		ep_neg(u, r);
@@ -397,6 +402,7 @@ static void ep_mul_reg_imp(ep_t r, const ep_t p, const bn_t k) {
 			ep_free(t[i]);
 		}
 		bn_free(m);
+		bn_free(_k);
 		ep_free(u);
 		ep_free(v);
 	}
